@@ -32,6 +32,8 @@ pub struct Fix {
     pub other: AutosarModel,
     pub files: Vec<ArxmlFile>,
     pub roles: Vec<Element>,
+    /// parent of each role element at fixture time
+    pub role_parents: Vec<Option<Element>>,
     pub paths: Vec<&'static str>,
 }
 
@@ -41,6 +43,8 @@ impl Fix {
     pub fn new() -> Fix {
         let model = AutosarModel::new();
         let (f0, _) = model.load_buffer(FIXTURE_DOC.as_bytes(), "base.arxml", true).expect("fixture");
+        // a second file in the same model: shares /a (x10 in both files, x1a only here) and brings /b
+        let (f2, _) = model.load_buffer(FIXTURE_DOC_B.as_bytes(), "second.arxml", true).expect("fixture B");
         let other = AutosarModel::new();
         let f1 = other.create_file("other.arxml", AutosarVersion::Autosar_00050).unwrap();
         let _ = other.root_element().create_sub_element(ElementName::ArPackages).and_then(|p| p.create_named_sub_element(ElementName::ArPackage, "o"));
@@ -68,8 +72,14 @@ impl Fix {
         let l2 = isig10.get_sub_element(ElementName::Desc).unwrap().get_sub_element(ElementName::L2).unwrap();
         let sn = sys.get_sub_element(ElementName::ShortName).unwrap();
         let opkg = other.get_element_by_path("/o").unwrap();
-        let roles = vec![root, pkgs, a, a_elems, sys, fib, cond, fref, cm, uref, scales, scale, unit, pkg1, isig, ssref, ssig, sub, pkg10, isig10, l2, sn, opkg];
-        Fix { model, other, files: vec![f0, f1], roles, paths: PATHS.to_vec() }
+        // 23.. : elements with file sets of their own (second.arxml only)
+        let x1a = g("/a/x1a");
+        let bpkg = g("/b");
+        let b_elems = bpkg.get_sub_element(ElementName::Elements).unwrap();
+        let b_a1 = g("/b/a1");
+        let roles = vec![root, pkgs, a, a_elems, sys, fib, cond, fref, cm, uref, scales, scale, unit, pkg1, isig, ssref, ssig, sub, pkg10, isig10, l2, sn, opkg, x1a, b_elems, bpkg, b_a1];
+        let role_parents = roles.iter().map(|e| e.parent().ok().flatten()).collect();
+        Fix { model, other, files: vec![f0, f1, f2], roles, role_parents, paths: PATHS.to_vec() }
     }
 
     pub fn role(&self, i: u8) -> &Element {
@@ -86,7 +96,7 @@ impl Fix {
             Err(e) => format!("Err({})", crate::hist::err_variant(&e)),
         };
         match o.code {
-            0 => r(self.files[0].serialize().map(|s| format!("{:x}", fnv(s.as_bytes())))),
+            0 => r(self.files[[0, 2][o.a as usize % 2]].serialize().map(|s| format!("{:x}", fnv(s.as_bytes())))),
             1 => format!("{:x}", fnv(e.serialize().as_bytes())),
             2 => r(e.path()),
             3 => e.xml_path(),
@@ -104,7 +114,13 @@ impl Fix {
             }
             13 => format!("{:?}", e.cmp(f)),
             14 => format!("{}", format!("{:?}", e).len()),
-            15 => format!("{:?}/{:?}", e.item_name(), e.character_data()),
+            15 => {
+                if o.b % 2 == 0 {
+                    format!("{:?}", e.item_name())
+                } else {
+                    format!("{:?}", e.character_data())
+                }
+            }
             16 => r(e.get_reference_target().map(|t| t.element_name().to_string())),
             17 => {
                 let kinds = [ElementName::Category, ElementName::Desc, ElementName::AdminData, ElementName::Elements, ElementName::ArPackages, ElementName::FibexElements, ElementName::LongName, ElementName::CompuPhysToInternal];
@@ -114,10 +130,12 @@ impl Fix {
                 let kinds = [ElementName::ArPackage, ElementName::Unit, ElementName::SystemSignal, ElementName::ISignal, ElementName::CompuMethod];
                 r(e.create_named_sub_element(kinds[o.b as usize % kinds.len()], &format!("n{tag}")).map(|x| x.element_name().to_string()))
             }
-            19 => r(e.parent().and_then(|p| match p {
-                Some(p) => p.remove_sub_element(e.clone()).map(|_| "removed".to_string()),
-                None => Err(AutosarDataError::ItemDeleted),
-            })),
+            // ONE call: the parent is the one the element had in the fixture (looking it up here would make the operation a
+            // sequence of two calls, which no sequential order of single calls can explain when a move comes in between)
+            19 => match &self.role_parents[o.a as usize % self.roles.len()] {
+                Some(p) => r(p.remove_sub_element(e.clone()).map(|_| "removed".to_string())),
+                None => "Err(no parent)".to_string(),
+            },
             20 => r(e.set_item_name(["x9", "a1", &format!("r{tag}"), "pkg1"][o.b as usize % 4]).map(|_| "renamed".into())),
             21 => r(e.move_element_here(f).map(|x| x.element_name().to_string())),
             22 => r(e.create_copied_sub_element(f).map(|x| x.element_name().to_string())),
@@ -142,8 +160,8 @@ impl Fix {
                 self.model.remove_file(&self.files[0]);
                 "ok".into()
             }
-            31 => r(e.add_to_file(&self.files[o.b as usize % 2]).map(|_| "added".into())),
-            32 => r(e.remove_from_file(&self.files[o.b as usize % 2]).map(|_| "removed".into())),
+            31 => r(e.add_to_file(&self.files[o.b as usize % 3]).map(|_| "added".into())),
+            32 => r(e.remove_from_file(&self.files[o.b as usize % 3]).map(|_| "removed".into())),
             33 => {
                 let m = if o.b % 2 == 0 { &self.model } else { &self.other };
                 r(m.load_buffer(FIXTURE_DOC_B.as_bytes(), format!("load{tag}.arxml"), true).map(|(_, w)| format!("loaded/{}", w.len())))
